@@ -29,17 +29,44 @@ const M = "github.com/google/martian/v3"
 
 // World is one loaded, type-checked and SSA-built configuration of /repo.
 type World struct {
-	Dir    string
-	Fset   *token.FileSet
-	Pkgs   map[string]*packages.Package // module packages by import path
-	Init   []*packages.Package
-	Prog   *ssa.Program
-	SPkg   map[string]*ssa.Package
-	Config string // e.g. linux/amd64
-	cg     *callgraph.Graph
-	fns    []*ssa.Function // all source functions of module packages (incl. anonymous)
-	declOf map[*ssa.Function]*ast.FuncDecl
-	full   bool
+	Dir       string
+	Fset      *token.FileSet
+	Pkgs      map[string]*packages.Package // module packages by import path
+	Init      []*packages.Package
+	Prog      *ssa.Program
+	SPkg      map[string]*ssa.Package
+	Config    string // e.g. linux/amd64
+	cg        *callgraph.Graph
+	fns       []*ssa.Function // all source functions of module packages (incl. anonymous)
+	declOf    map[*ssa.Function]*ast.FuncDecl
+	full      bool
+	NormNotes []string
+}
+
+// noNormalize disables the source normalisation (flag -nonormalize).
+var noNormalize bool
+
+func hasErrors(pkgs []*packages.Package) bool {
+	bad := false
+	packages.Visit(pkgs, nil, func(p *packages.Package) {
+		if len(p.Errors) > 0 {
+			bad = true
+		}
+	})
+	return bad
+}
+
+func firstError(pkgs []*packages.Package, err error) string {
+	if err != nil {
+		return err.Error()
+	}
+	msg := "?"
+	packages.Visit(pkgs, nil, func(p *packages.Package) {
+		if len(p.Errors) > 0 && msg == "?" {
+			msg = p.Errors[0].Error()
+		}
+	})
+	return msg
 }
 
 // Load type-checks every package of the module rooted at dir. overlay maps
@@ -68,7 +95,49 @@ func Load(dir string, goos, goarch string, overlay map[string][]byte, full bool)
 	if len(pkgs) == 0 {
 		return nil, fmt.Errorf("no packages loaded from %s", dir)
 	}
-	w := &World{Dir: dir, Pkgs: map[string]*packages.Package{}, SPkg: map[string]*ssa.Package{}, Config: cfgname, declOf: map[*ssa.Function]*ast.FuncDecl{}, full: full}
+	// normalisation (normalize.go): undo private renames, inline new helpers
+	var normNotes []string
+	if !noNormalize && !hasErrors(pkgs) {
+		seq := 0
+		cur := overlay
+		if cur == nil {
+			cur = map[string][]byte{}
+		}
+		for round := 0; round < 6; round++ {
+			phase := 1
+			if round == 0 {
+				phase = 0
+			}
+			next, notes, changed := normalizeStep(pkgs, cur, phase, &seq)
+			if !changed {
+				normNotes = append(normNotes, notes...)
+				if phase == 0 {
+					continue
+				}
+				break
+			}
+			cfg2 := *cfg
+			cfg2.Overlay = next
+			pkgs2, err2 := packages.Load(&cfg2, "./...")
+			if err2 != nil || len(pkgs2) == 0 || hasErrors(pkgs2) {
+				normNotes = append(normNotes, "normalise: the normalised source does not type-check ("+firstError(pkgs2, err2)+"); this step is abandoned and the rules see the source as it is")
+				if os.Getenv("VERIF_KEEP_NORMALISED") != "" {
+					for name, b := range next {
+						os.WriteFile(filepath.Join(os.Getenv("VERIF_KEEP_NORMALISED"), "FAILED_"+filepath.Base(name)), b, 0o644)
+					}
+				}
+				break
+			}
+			normNotes = append(normNotes, notes...)
+			pkgs, cur = pkgs2, next
+		}
+		if d := os.Getenv("VERIF_KEEP_NORMALISED"); d != "" {
+			for name, b := range cur {
+				os.WriteFile(filepath.Join(d, filepath.Base(name)), b, 0o644)
+			}
+		}
+	}
+	w := &World{NormNotes: normNotes, Dir: dir, Pkgs: map[string]*packages.Package{}, SPkg: map[string]*ssa.Package{}, Config: cfgname, declOf: map[*ssa.Function]*ast.FuncDecl{}, full: full}
 	var errs []string
 	packages.Visit(pkgs, nil, func(p *packages.Package) {
 		for _, e := range p.Errors {
@@ -574,7 +643,7 @@ func finish(verifDir, prop, tier string, seed int, reps []*Report, extra map[str
 		"packages":            len(primary.W.Pkgs),
 		"module_functions":    len(primary.W.fns),
 		"configurations":      cfgs,
-		"notes":               primary.Notes,
+		"notes":               append(append([]string{}, primary.W.NormNotes...), primary.Notes...),
 		"stale_findings":      stale,
 		"checker_cmd":         fmt.Sprintf("bin/check %s %s", prop, tier),
 		"trusted_base":        []string{"go/types", "golang.org/x/tools v0.29.0 go/ssa, go/packages, callgraph/vta", "frozen tables in /verif/checker/c*.go", "documented semantics of the Go standard library and x/net/http2 that rules cite"},
